@@ -56,7 +56,11 @@ class Parser(Emitter):
             fn = formulas.get_for(name)
         if fn is None:
             raise formulaserror.NAME
-        result['value'] = fn(*args)
+        try:
+            result['value'] = fn(*args)
+        except formulaserror.XLError as e:
+            # a raised error is the call's value, so that IFERROR & co. can observe it
+            result['value'] = e
 
         def valsetter(new_value):
             if new_value is not None:
